@@ -1594,7 +1594,26 @@ func ruleR4() *Rule {
 				}
 				switch x := root(v).(type) {
 				case *ssa.Call:
-					return x.Call.StaticCallee() == clone
+					if x.Call.StaticCallee() == clone {
+						return true
+					}
+					// a helper of the package that hands out a reader: every reader it returns is private
+					if f := x.Call.StaticCallee(); f != nil && p.InZap(f) && len(f.Blocks) > 0 && f != clone {
+						n := 0
+						for _, ret := range returnsOf(f) {
+							for _, rv := range ret.Results {
+								if !isNamedPtr(rv.Type(), "docValueReader") {
+									continue
+								}
+								n++
+								if !okRecv(rv, depth+1) {
+									return false
+								}
+							}
+						}
+						return n > 0
+					}
+					return false
 				case *ssa.Extract:
 					if lk, ok := x.Tuple.(*ssa.Lookup); ok {
 						return isDvrs(lk.X, 0)
@@ -1671,6 +1690,9 @@ func ruleR4() *Rule {
 					}
 					nu++
 					call, isCall := root(mu.Value).(*ssa.Call)
+					if isNilConst(mu.Value) {
+						return // "no reader for this field" remembered as nil
+					}
 					c.check(isCall && call.Call.StaticCallee() == clone, fmt.Sprintf("state-holds-clones/%s#%d", funcShortName(fn), nu), c.pos(mu),
 						"what is stored into a visit state's reader map is a cloneInto result", "a shared reader is stored into the per-caller visit state without cloning", "store: "+describeInstr(p, mu))
 				})
